@@ -25,6 +25,7 @@ type V struct {
 	QU  [4]uint64 // S: sum,-,min,max bit patterns
 	Bs  []byte    // T X P
 	Nil bool      // hand a nil payload (instead of an empty one) to the implementation
+	Raw bool      // P only: assign the payload to the exported field directly (&IP4Value{Val: …}), whatever its length
 	Is  []int64   // ai al
 	Us  []uint64  // af
 	Ss  [][]byte  // at
@@ -119,7 +120,9 @@ func (v *V) Line() string {
 // LineX is Line with nil payloads marked: the hex / count token of a nil blob or array is "~".
 // Only ParseLine reads it (replay files); the drivers never see it.
 func (v *V) LineX() string {
-	if !v.HasNil() {
+	raw := false
+	v.Walk(func(n *V) { raw = raw || n.Raw })
+	if !v.HasNil() && !raw {
 		return v.Line()
 	}
 	c := v.Clone()
@@ -129,6 +132,14 @@ func (v *V) LineX() string {
 }
 
 func (v *V) toksX(out *[]string) {
+	if v.K == "P" && v.Raw {
+		h := hx(v.Bs)
+		if v.Nil {
+			h = "~"
+		}
+		*out = append(*out, "P!", h)
+		return
+	}
 	if v.Nil {
 		*out = append(*out, v.K, "~")
 		return
@@ -185,7 +196,11 @@ func (p *parser) u() uint64 {
 }
 func (p *parser) val() *V {
 	k := p.next()
-	v := &V{K: k}
+	raw := false
+	if k == "P!" { // IPv4 payload assigned directly (LineX only)
+		k, raw = "P", true
+	}
+	v := &V{K: k, Raw: raw}
 	switch k {
 	case "N":
 	case "B":
@@ -318,6 +333,12 @@ func (v *V) ToGo() value.Value {
 		}
 		return value.NewBlobValue(append([]byte{}, v.Bs...))
 	case "P":
+		if v.Raw {
+			if v.Nil && len(v.Bs) == 0 {
+				return &value.IP4Value{} // the zero value: Val is nil
+			}
+			return &value.IP4Value{Val: append([]byte{}, v.Bs...)}
+		}
 		return value.NewIP4Value(append([]byte{}, v.Bs...))
 	case "l":
 		l := value.NewListValue(nil)
@@ -1246,6 +1267,14 @@ func (v *V) HasMap() bool {
 			found = true
 		}
 	})
+	return found
+}
+
+// HasRawIP: an IPv4 value whose payload was assigned directly and is not four bytes long (it cannot
+// round-trip: the reader takes exactly four bytes).
+func (v *V) HasRawIP() bool {
+	found := false
+	v.Walk(func(n *V) { found = found || (n.K == "P" && n.Raw && len(n.Bs) != 4) })
 	return found
 }
 
